@@ -131,6 +131,32 @@ Definition content_keys_allowed (sp : rspec) (ty : bytes) (c : json) : bool :=
               than 255 bytes only: persistable) *)
 Definition starts_with (p s : bytes) : bool := is_prefix p s.
 
+(* what may surface of a received event t whose hash does (hok) or does not match: the flag,
+   JSON() and Content() lines of the event that was handed back -- also when it was handed back
+   together with a persistable size error.  A hash mismatch surfaces only the redacted form:
+   flagged redacted, top-level keys within the version's keep list, NONE of the keys a receiver
+   discards (so no sender-chosen event_id where the ID is a hash), content keys within the
+   keep list of the type. *)
+Definition surface_verdict (ver : bytes) (sp : rspec) (t : json) (hok : bool) (l1 l2 l3 : bytes) : bytes :=
+  match parse_json l2 with
+  | Some e =>
+      let ty := match jget type_key e with Some (JStr s) => s | _ => [] end in
+      let c := match jget content_key e with Some c => c | None => JObj [] end in
+      let surface_ok :=
+        if hok then
+          bytes_eqb l1 (bs "redacted=false") &&
+          bytes_eqb l2 (canon_print (strip_with (spec_stripped ver) t))
+        else
+          bytes_eqb l1 (bs "redacted=true") &&
+          subset_b (jkeys e) (sp_top sp) && content_keys_allowed sp ty c in
+      let stripped_ok := forallb (fun k => negb (mem_bytes k (jkeys e))) (spec_stripped ver) in
+      let content_line_ok := bytes_eqb l3 (canon_print c) in
+      if surface_ok && stripped_ok && content_line_ok then bs "ok"
+      else bs "FAIL surface=" ++ flag surface_ok ++ bs " discarded-keys-absent=" ++ flag stripped_ok
+             ++ bs " content=" ++ flag content_line_ok
+  | None => bs "FAIL unparsable JSON()"
+  end.
+
 Definition prop_surface (args : list bytes) : bytes :=
   match args with
   | [ver; otxt; ttxt; real; class; obs] =>
@@ -144,32 +170,26 @@ Definition prop_surface (args : list bytes) : bytes :=
           if bytes_eqb class (bs "e:toolarge") then
             (if bytes_eqb obs (bs "err-toolarge") then bs "ok" else bs "FAIL wanted err-toolarge")
           else if bytes_eqb class (bs "e:persistable") then
-            (if bytes_eqb l1 (bs "err-persistable") then bs "ok" else bs "FAIL wanted err-persistable")
+            (if bytes_eqb l1 (bs "err-persistable") then
+               (* the event handed back with the error is subject to the same rule *)
+               match rest with
+               | [] => bs "ok"
+               | [f; j; c] => surface_verdict ver sp t hok f j c
+               | _ => bs "FAIL shape"
+               end
+             else bs "FAIL wanted err-persistable")
           else if starts_with (bs "err") l1 then
             (* altering protected material may make the event unacceptable altogether *)
             (if bytes_eqb class (bs "p") then bs "ok" else bs "FAIL rejected")
           else
           match rest with
           | [l2; l3; l4; l5] =>
-              match parse_json l2 with
-              | Some e =>
-                  let ty := match jget type_key e with Some (JStr s) => s | _ => [] end in
-                  let c := match jget content_key e with Some c => c | None => JObj [] end in
-                  let surface_ok :=
-                    if hok then
-                      bytes_eqb l1 (bs "redacted=false") &&
-                      bytes_eqb l2 (canon_print (strip_with (spec_stripped ver) t))
-                    else
-                      bytes_eqb l1 (bs "redacted=true") &&
-                      subset_b (jkeys e) (sp_top sp) && content_keys_allowed sp ty c in
-                  let same_ok :=
-                    if bytes_eqb class (bs "r") then bytes_eqb l4 (bs "id=same") && bytes_eqb l5 (bs "sig=ok")
-                    else true in
-                  let content_line_ok := bytes_eqb l3 (canon_print c) in
-                  if surface_ok && same_ok && content_line_ok then bs "ok"
-                  else bs "FAIL surface=" ++ flag surface_ok ++ bs " same=" ++ flag same_ok ++ bs " content=" ++ flag content_line_ok
-              | None => bs "FAIL unparsable JSON()"
-              end
+              let same_ok :=
+                if bytes_eqb class (bs "r") then bytes_eqb l4 (bs "id=same") && bytes_eqb l5 (bs "sig=ok")
+                else true in
+              let v := surface_verdict ver sp t hok l1 l2 l3 in
+              if negb (bytes_eqb v (bs "ok")) then v
+              else if same_ok then bs "ok" else bs "FAIL same=no (event ID or signature verdict changed)"
           | _ => bs "FAIL shape"
           end
       | None, _, _ => bs "unknown-version"
